@@ -5,7 +5,7 @@ import Nv.Gen.C19
 oracle_c19 — line protocol (the configuration is the one regenerated from the source, `Nv.Gen.C19.cfg`):
   `new cap=<n> mock=<0|1> len=<int> maxc=<int> maxv=<int> ttlx=<0|1> minb=<0|1> winr=<0|1> smsfail=<0|1>` → `new`
   `send <area> <phone>` → `ok h<k>` | `smsfail h<k>` | `err:tooFreq` | `err:countLimit` | `panic`
-  `verify <area> <phone> <cur|wrong|c<k>|lit:<text>> <hcur|h<k>|hx|h->` →
+  `verify <area> <phone> <cur|wrong|c<k>|lit:<text>>[^<mod>] <hcur|h<k>|hx|h->[^<mod>]` (mod ∈ U sp ts tr ch z fw: a near miss of the referenced value) →
         `ok` | `err:notExist` | `err:retryLimit` | `err:notMatch` | `err:hashNotMatch` | `err:timeout`
   `nonce <base> <len> <v0,v1,…|->` → `out=<string>` | `panic`
   `cover <base>` → `covered=<sorted distinct chars of genNonce base 1 [v], v < 2·|base|+2>` | `panic`
@@ -72,7 +72,17 @@ def wrongOf : Code → Code
   | .lit [] => .lit ['x']
   | .sym _ => .lit ['x']
 
-def parseCode (o : OState) (pair : Str × Str) (w : String) : Option Code :=
+/-- near-miss modifications of a referenced code / hash (`<ref>^<mod>`): the runner builds a string that is
+    guaranteed to differ from the referenced one (case flipped, blank added, one character dropped or changed,
+    full-width digits); in the model it is simply a value that was never issued -/
+def nearMissMods : List String := ["U", "sp", "ts", "tr", "ch", "z", "fw"]
+
+def splitMod (w : String) : Option (String × String) :=
+  match w.splitOn "^" with
+  | [a, m] => if nearMissMods.contains m then some (a, m) else none
+  | _ => none
+
+def parseCodeBase (o : OState) (pair : Str × Str) (w : String) : Option Code :=
   let l := w.toList
   if w == "cur" then some (((lookupPair pair o.cur).map (·.1)).getD noCode)
   else if w == "wrong" then some (wrongOf (((lookupPair pair o.cur).map (·.1)).getD (.lit [])))
@@ -81,12 +91,26 @@ def parseCode (o : OState) (pair : Str × Str) (w : String) : Option Code :=
     | 'c' :: rest => (natOf rest).map (fun k => (lookupSend k o.sends).getD noCode)
     | _ => none
 
-def parseHash (o : OState) (pair : Str × Str) (w : String) : Option Nat :=
+def parseCode (o : OState) (pair : Str × Str) (w : String) : Option Code :=
+  if w.contains '^' then
+    match splitMod w with
+    | some (a, _) => (parseCodeBase o pair a).map (fun _ => .lit ['x', '^'])
+    | none => none
+  else parseCodeBase o pair w
+
+def parseHashBase (o : OState) (pair : Str × Str) (w : String) : Option Nat :=
   if w == "hx" || w == "h-" then some 0
   else if w == "hcur" then some (((lookupPair pair o.cur).map (·.2)).getD 0)
   else match w.toList with
     | 'h' :: rest => (natOf rest).map (fun k => if k ≤ o.st.nsent then k else 0)
     | _ => none
+
+def parseHash (o : OState) (pair : Str × Str) (w : String) : Option Nat :=
+  if w.contains '^' then
+    match splitMod w with
+    | some (a, _) => (parseHashBase o pair a).map (fun _ => 0)
+    | none => none
+  else parseHashBase o pair w
 
 def showSend : SendResult → String
   | .ok h => s!"ok h{h}" | .smsFail h => s!"smsfail h{h}" | .tooFreq => "err:tooFreq" | .countLimit => "err:countLimit"
